@@ -197,6 +197,14 @@ func c12Run(c *core.Ctx) {
 			return
 		}
 		toks := gen.UnparseProgram(prog, false)
+		for _, semi := range []int{0, 1} {
+			src := gen.Render(toks, func(int) string { return "\n" }, func(int) int { return semi })
+			if _, _, ok := ref.GShape(src); ok {
+				c.Inc("valid_programs")
+				c.Inc("all_lf_layout_programs")
+				handle(src, len(toks))
+			}
+		}
 		gen.Layouts(toks, 1, []string{"\n"}, func(src string, devs []gen.Dev) {
 			if len(devs) == 1 && devs[0].Semi == 0 {
 				return // only the default layout and the semicolon-less variants
